@@ -116,9 +116,15 @@ func formatExpr(ctx *formatCtx, expr ast.Expr, ref *ast.Expr) {
 		formatExpr(ctx, v.X, &v.X)
 		formatType(ctx, v.Type, &v.Type)
 	case *ast.LambdaExpr:
+		old := ctx.enterBlock()
+		ctx.insertLambdaParams(v.Lhs)
 		formatExprs(ctx, v.Rhs)
+		ctx.leaveBlock(old)
 	case *ast.LambdaExpr2:
+		old := ctx.enterBlock()
+		ctx.insertLambdaParams(v.Lhs)
 		formatBlockStmt(ctx, v.Body)
+		ctx.leaveBlock(old)
 	case *ast.RangeExpr:
 		formatRangeExpr(ctx, v)
 	case *ast.ComprehensionExpr:
